@@ -11,6 +11,7 @@ import (
 	"go/constant"
 	"go/token"
 	"go/types"
+	"os"
 	"sort"
 	"strings"
 
@@ -187,10 +188,11 @@ type tvStruct struct{ fields []interface{} }
 type tvFunc struct{ full string }
 
 type tabEnv struct {
-	c       *Ctx
-	globals map[types.Object]interface{}
-	locals  map[types.Object]interface{}
-	unknown []string
+	ssaFolded []string // tables whose value comes from the SSA fold of the initialisers
+	c         *Ctx
+	globals   map[types.Object]interface{}
+	locals    map[types.Object]interface{}
+	unknown   []string
 	// evaluation of module helper functions used by the tables (newCodePointSet(...), addRange(...))
 	depth    int
 	ret      interface{}
@@ -847,8 +849,87 @@ func BuildTables(c *Ctx) *tabEnv {
 				}
 			}
 		}
+		// what the AST evaluator could not follow is folded on the SSA form of the initialisers (tab_ssaeval.go); where
+		// both have a value they must agree
+		se := seTables(c)
+		if os.Getenv("WUDEBUG") == "tab" {
+			for o, v := range se {
+				fmt.Fprintf(os.Stderr, "SSA %s = %s\n", o.Name(), dumpTable(v))
+			}
+		}
+		for o, v := range e.globals {
+			sv, have := se[o]
+			if !have {
+				continue
+			}
+			if _, unk := v.(tvUnknown); unk {
+				e.globals[o] = sv
+				e.ssaFolded = append(e.ssaFolded, o.Name())
+				continue
+			}
+			if !sameTable(v, sv) {
+				if os.Getenv("WUDEBUG") == "tab" {
+					fmt.Fprintf(os.Stderr, "DISAGREE %s: ast=%v ssa=%v\n", o.Name(), dumpTable(v), dumpTable(sv))
+				}
+				e.globals[o] = tvUnknown{"the two table evaluators disagree on " + o.Name()}
+			}
+		}
+		for o, sv := range se {
+			if _, have := e.globals[o]; !have {
+				e.globals[o] = sv
+			}
+		}
+		sort.Strings(e.ssaFolded)
 		return e
 	}).(*tabEnv)
+}
+
+func dumpTable(v interface{}) string {
+	bits := func(x *tvBitset) iset {
+		var pts []int64
+		for k := range x.bits {
+			pts = append(pts, k)
+		}
+		return isetPoints(pts...)
+	}
+	switch x := v.(type) {
+	case *tvBitset:
+		return bits(x).String()
+	case *tvPES:
+		return fmt.Sprintf("below %d + %s", x.allBelow, bits(x.bs).String())
+	}
+	return fmt.Sprintf("%v", v)
+}
+
+// sameTable compares two table values.
+func sameTable(a, b interface{}) bool {
+	bits := func(x *tvBitset) iset {
+		var pts []int64
+		for k := range x.bits {
+			pts = append(pts, k)
+		}
+		return isetPoints(pts...)
+	}
+	switch x := a.(type) {
+	case *tvBitset:
+		y, ok := b.(*tvBitset)
+		return ok && bits(x).equal(bits(y))
+	case *tvPES:
+		y, ok := b.(*tvPES)
+		return ok && x.allBelow == y.allBelow && x.bs != nil && y.bs != nil && bits(x.bs).equal(bits(y.bs))
+	case tvMap:
+		y, ok := b.(tvMap)
+		if !ok || len(x) != len(y) {
+			return false
+		}
+		for k, v := range x {
+			if y[k] != v {
+				return false
+			}
+		}
+		return true
+	}
+	return true // kinds this comparison does not know: no opinion
 }
 
 // Global returns the table value of a package-level variable.
@@ -871,6 +952,24 @@ func (e *tabEnv) Global(pkg, name string) (interface{}, types.Object) {
 var depthPred int
 
 func predDenotation(c *Ctx, method string, p *tvPES) (iset, error) {
+	d, err := predDenotationAST(c, method, p)
+	fn := c.P.Func("url", "PercentEncodeSet", method)
+	if fn == nil || p == nil || p.bs == nil {
+		return d, err
+	}
+	// the same denotation read off the SSA form: the fallback where the source form is outside the AST reader, and a
+	// cross-check where both can read it
+	d2, err2 := predDenotationSSA(c, fn, p, 0)
+	switch {
+	case err != nil && err2 == nil:
+		return d2, nil
+	case err == nil && err2 == nil && !d.equal(d2):
+		return nil, fmt.Errorf("%s: the two predicate readers disagree (%s vs %s)", method, d.String(), d2.String())
+	}
+	return d, err
+}
+
+func predDenotationAST(c *Ctx, method string, p *tvPES) (iset, error) {
 	fn := c.P.Func("url", "PercentEncodeSet", method)
 	if fn == nil {
 		return nil, fmt.Errorf("method %s not found", method)
